@@ -29,7 +29,7 @@ Definition read_chunk (p : prov) (w : N) : list N :=
 
 Definition write_word (p : prov) (w b0 b1 : N) : prov :=
   {| p_byte := p_byte p; p_cs := p_cs p;
-     p_writes := (2 * w, b0) :: (2 * w + 1, b1) :: p_writes p |}.
+     p_writes := (2 * w + 1, b1) :: (2 * w, b0) :: p_writes p |}.
 
 (* ---------- 16-bit arithmetic as compiled ---------- *)
 Inductive serr :=
